@@ -22,9 +22,10 @@ theorem ofCheck_accepts (chk : Book → Obs → Bool) (R : St → Book → Prop)
         exact ⟨b.update o, by simp [ofCheck, h1], h2⟩) es s h
 
 theorem rk_init : RK model.init {} := by
-  refine ⟨rfl, ?_, ?_⟩
+  refine ⟨rfl, ?_, ?_, ?_⟩
   · intro t th c h; simp [model] at h
   · intro p h; simp at h
+  · intro p pr h; simp [model] at h
 
 theorem why_ok (s s' : St) (e : Ev) (o : Obs) (b : Book) (hi : Inv s) (h : RK s b)
     (hs : step s e = some s') (ho : e.obs = some o) : chkWhy b o = true := by
@@ -53,8 +54,20 @@ theorem why_ok (s s' : St) (e : Ev) (o : Obs) (b : Book) (hi : Inv s) (h : RK s 
         have hkind : c.kind = .await p k := by rw [hk.kind, hts]; rfl
         simp only [hkind]
         simp only [ThOK, hts] at hok
-        rcases hok with ⟨h1, _⟩ | ⟨_, h2 | h2⟩
-        · omega
+        rcases hok with h1 | ⟨_, h2 | h2⟩
+        · -- a result with the zero value: the promise was born resolved with this error
+          have hmem : (p, e') ∈ b.bornP := by
+            simp only [published] at h1
+            cases hp : s.proms[p]? with
+            | none => simp [hp] at h1
+            | some pr =>
+              simp [hp] at h1
+              cases hb : pr.born with
+              | false => have := ((hi.pr p pr hp).1 0 e' h1 hb).2; omega
+              | true =>
+                obtain ⟨e0, h3, h4⟩ := h.born p pr hp hb
+                rw [h1] at h3; cases h3; exact h4
+          simp [hmem]
         · simp [h2.1, hk.cx, h2.2]
         · simp [hk.ch, h2]
       | none =>
@@ -74,11 +87,17 @@ theorem why_ok (s s' : St) (e : Ev) (o : Obs) (b : Book) (hi : Inv s) (h : RK s 
   | cInnerSel t br => simp [Ev.obs] at ho
   | cChk1 t => simp [Ev.obs] at ho
   | cChk2 t => simp [Ev.obs] at ho
+  | checkLike c ok =>
+    simp [Ev.obs] at ho; subst ho
+    simp only [step] at hs; split at hs <;> simp at hs
+    rename_i hok
+    simp [chkWhy, hok]
   | _ => simp [Ev.obs] at ho <;> subst ho <;> rfl
 
 /-- **C11 (observable form, reasons).** On every trace of the model, an await that returns without a
-result does so because its context was cancelled (then with `context.Canceled`) or because its own
-channel fired (then with what that channel dictates). -/
+result does so because its context was cancelled (then with `context.Canceled`), because its own
+channel fired (then with what that channel dictates), or because the promise was constructed
+pre-resolved by `NewPromiseWithErr(e)` (then with `(zero, e)`); and `CheckPromiseLike` returns nil. -/
 theorem C11why_obs (es : List Ev) (s : St) (h : model.run model.init es = some s) :
     monC11why.accepts (es.filterMap model.obs) = true :=
   ofCheck_accepts chkWhy (fun s b => Inv s ∧ RK s b) ⟨init_inv, rk_init⟩
